@@ -35,9 +35,28 @@ var canonByFn = map[*ssa.Function]string{}
 // fingerprint computes the rename-stable tokens of a function (closures included).
 func (p *Program) fingerprint(fn *ssa.Function) []string {
 	set := map[string]bool{}
+	set["sig:"+p.blankRepoNames(fn.Signature)] = true
 	for _, f := range Family(fn) {
 		for _, b := range f.Blocks {
 			for _, in := range b.Instrs {
+				switch x := in.(type) {
+				case *ssa.MakeChan:
+					set["op:makechan "+p.blankRepoNames(x.Type())] = true
+				case *ssa.MakeMap:
+					set["op:makemap "+p.blankRepoNames(x.Type())] = true
+				case *ssa.MakeSlice:
+					set["op:makeslice "+p.blankRepoNames(x.Type())] = true
+				case *ssa.Alloc:
+					if x.Heap {
+						set["op:new "+p.blankRepoNames(x.Type())] = true
+					}
+				case *ssa.Go:
+					set["op:go"] = true
+				case *ssa.Select:
+					set["op:select"] = true
+				case *ssa.Panic:
+					set["op:panic"] = true
+				}
 				if ci, ok := in.(ssa.CallInstruction); ok {
 					com := ci.Common()
 					if com.IsInvoke() {
@@ -153,7 +172,6 @@ func jaccard(a, b []string) float64 {
 // resolveAnchors fills the alias table for frozen names that are gone.
 func (p *Program) resolveAnchors() {
 	p.alias = map[string]*ssa.Function{}
-	p.AliasNotes = nil
 	byPkg := map[string][]AnchorFP{}
 	for _, a := range AnchorTable {
 		byPkg[a.Pkg] = append(byPkg[a.Pkg], a)
@@ -231,4 +249,259 @@ func (p *Program) resolveAnchors() {
 		}
 	}
 	sort.Strings(p.AliasNotes)
+}
+
+// ---- types and fields ---------------------------------------------------------
+
+// TypeFP is the frozen shape of one named type of the analysed packages.
+type TypeFP struct {
+	Pkg, Name  string
+	Underlying string   // kind of the underlying type ("struct", or its printed form with repo types blanked)
+	Fields     []string // struct fields in order: "name type" (repo type names blanked)
+	Methods    []string // method names (sorted)
+}
+
+var typeCanon = map[*types.TypeName]string{} // renamed type -> frozen name
+var fieldCanon = map[*types.Var]string{}     // renamed field -> frozen name
+
+// TName returns the frozen name of a named type (its own name unless it was renamed).
+func TName(n *types.Named) string {
+	if n == nil {
+		return ""
+	}
+	if c, ok := typeCanon[n.Obj()]; ok {
+		return c
+	}
+	return n.Obj().Name()
+}
+
+// VarName returns the frozen name of a struct field.
+func VarName(v *types.Var) string {
+	if c, ok := fieldCanon[v]; ok {
+		return c
+	}
+	return v.Name()
+}
+
+// blankType prints a type with the names of repository types replaced by "@",
+// so that the print is stable under renames of those types.
+func (p *Program) blankType(t types.Type) string {
+	return types.TypeString(t, func(pkg *types.Package) string {
+		if _, in := p.SPkgs[pkg.Path()]; in {
+			return "@"
+		}
+		return pkg.Path()
+	})
+}
+
+func (p *Program) blankRepoNames(t types.Type) string {
+	s := p.blankType(t)
+	// "@.name" -> "@"
+	var sb strings.Builder
+	for i := 0; i < len(s); i++ {
+		if s[i] == '@' && i+1 < len(s) && s[i+1] == '.' {
+			sb.WriteByte('@')
+			i += 2
+			for i < len(s) && (s[i] == '_' || s[i] >= '0' && s[i] <= '9' || s[i] >= 'a' && s[i] <= 'z' || s[i] >= 'A' && s[i] <= 'Z') {
+				i++
+			}
+			i--
+			continue
+		}
+		sb.WriteByte(s[i])
+	}
+	return sb.String()
+}
+
+func (p *Program) typeFP(tn *types.TypeName) TypeFP {
+	fp := TypeFP{Pkg: tn.Pkg().Path(), Name: tn.Name()}
+	named, _ := tn.Type().(*types.Named)
+	if st, ok := tn.Type().Underlying().(*types.Struct); ok {
+		fp.Underlying = "struct"
+		for i := 0; i < st.NumFields(); i++ {
+			fp.Fields = append(fp.Fields, st.Field(i).Name()+" "+p.blankRepoNames(st.Field(i).Type()))
+		}
+	} else {
+		fp.Underlying = p.blankRepoNames(tn.Type().Underlying())
+	}
+	if named != nil {
+		for i := 0; i < named.NumMethods(); i++ {
+			fp.Methods = append(fp.Methods, named.Method(i).Name())
+		}
+		sort.Strings(fp.Methods)
+	}
+	return fp
+}
+
+// GenTypeTable renders the shapes of all named types of the analysed packages.
+func (p *Program) GenTypeTable(pkgs []string) string {
+	var sb strings.Builder
+	for _, pkg := range pkgs {
+		tp := p.Pkgs[pkg]
+		if tp == nil {
+			continue
+		}
+		for _, name := range tp.Types.Scope().Names() {
+			tn, ok := tp.Types.Scope().Lookup(name).(*types.TypeName)
+			if !ok || tn.IsAlias() || p.IsGenerated(tn.Pos()) {
+				continue
+			}
+			fp := p.typeFP(tn)
+			fmt.Fprintf(&sb, "\t{Pkg: %q, Name: %q, Underlying: %q, Fields: %#v, Methods: %#v},\n", fp.Pkg, fp.Name, fp.Underlying, fp.Fields, fp.Methods)
+		}
+	}
+	return strings.ReplaceAll(sb.String(), "[]string(nil)", "nil")
+}
+
+func fieldTypesOf(fields []string) []string {
+	var out []string
+	for _, f := range fields {
+		if i := strings.IndexByte(f, ' '); i >= 0 {
+			out = append(out, f[i+1:])
+		}
+	}
+	return out
+}
+
+// resolveTypes fills typeCanon / fieldCanon for frozen type and field names that are gone.
+func (p *Program) resolveTypes() {
+	byPkg := map[string][]TypeFP{}
+	for _, t := range TypeTable {
+		byPkg[t.Pkg] = append(byPkg[t.Pkg], t)
+	}
+	for pkg, specs := range byPkg {
+		tp := p.Pkgs[pkg]
+		if tp == nil || p.SPkgs[pkg] == nil {
+			continue
+		}
+		frozen := map[string]TypeFP{}
+		for _, s := range specs {
+			frozen[s.Name] = s
+		}
+		var missing []TypeFP
+		for _, s := range specs {
+			if _, ok := tp.Types.Scope().Lookup(s.Name).(*types.TypeName); !ok {
+				missing = append(missing, s)
+			}
+		}
+		resolved := map[string]*types.TypeName{}
+		if len(missing) > 0 {
+			var cands []*types.TypeName
+			for _, name := range tp.Types.Scope().Names() {
+				tn, ok := tp.Types.Scope().Lookup(name).(*types.TypeName)
+				if ok && !tn.IsAlias() {
+					if _, isFrozen := frozen[name]; !isFrozen {
+						cands = append(cands, tn)
+					}
+				}
+			}
+			taken := map[*types.TypeName]int{}
+			type m struct {
+				spec TypeFP
+				tn   *types.TypeName
+			}
+			var acc []m
+			for _, s := range missing {
+				var best, second float64
+				var bestTn *types.TypeName
+				for _, tn := range cands {
+					fp := p.typeFP(tn)
+					if (fp.Underlying == "struct") != (s.Underlying == "struct") {
+						continue
+					}
+					var score float64
+					if s.Underlying == "struct" {
+						score = 0.7*jaccard(fieldTypesOf(s.Fields), fieldTypesOf(fp.Fields)) + 0.3*jaccard(s.Methods, fp.Methods)
+						if len(s.Methods) == 0 && len(fp.Methods) == 0 {
+							score = jaccard(fieldTypesOf(s.Fields), fieldTypesOf(fp.Fields))
+						}
+					} else {
+						if fp.Underlying != s.Underlying {
+							continue
+						}
+						score = 0.5 + 0.5*jaccard(s.Methods, fp.Methods)
+					}
+					if score > best {
+						best, second, bestTn = score, best, tn
+					} else if score > second {
+						second = score
+					}
+				}
+				if bestTn != nil && best >= 0.6 && best-second >= 0.1 {
+					acc = append(acc, m{s, bestTn})
+					taken[bestTn]++
+				}
+			}
+			for _, a := range acc {
+				if taken[a.tn] == 1 {
+					typeCanon[a.tn] = a.spec.Name
+					resolved[a.spec.Name] = a.tn
+					p.AliasNotes = append(p.AliasNotes, fmt.Sprintf("%s: frozen type %s is now %s", pkg[strings.LastIndexByte(pkg, '/')+1:], a.spec.Name, a.tn.Name()))
+				}
+			}
+		}
+		// fields: frozen name gone from a struct of unchanged shape -> the field at the same position
+		for _, s := range specs {
+			if s.Underlying != "struct" {
+				continue
+			}
+			tn, _ := tp.Types.Scope().Lookup(s.Name).(*types.TypeName)
+			if tn == nil {
+				tn = resolved[s.Name]
+			}
+			if tn == nil {
+				continue
+			}
+			st, ok := tn.Type().Underlying().(*types.Struct)
+			if !ok {
+				continue
+			}
+			have := map[string]bool{}
+			for i := 0; i < st.NumFields(); i++ {
+				have[st.Field(i).Name()] = true
+			}
+			want := fieldTypesOf(s.Fields)
+			for i, f := range s.Fields {
+				name := f[:strings.IndexByte(f, ' ')]
+				if have[name] {
+					continue
+				}
+				// same position and type, and the current name is not a frozen name of this struct
+				if st.NumFields() == len(s.Fields) && p.blankRepoNames(st.Field(i).Type()) == want[i] {
+					cur := st.Field(i)
+					isFrozenName := false
+					for _, g := range s.Fields {
+						if strings.HasPrefix(g, cur.Name()+" ") {
+							isFrozenName = true
+						}
+					}
+					if !isFrozenName {
+						fieldCanon[cur] = name
+						p.AliasNotes = append(p.AliasNotes, fmt.Sprintf("%s: frozen field %s.%s is now %s", pkg[strings.LastIndexByte(pkg, '/')+1:], s.Name, name, cur.Name()))
+						continue
+					}
+				}
+				// otherwise: a unique new field of exactly that type
+				var match *types.Var
+				n := 0
+				for j := 0; j < st.NumFields(); j++ {
+					cur := st.Field(j)
+					isFrozenName := false
+					for _, g := range s.Fields {
+						if strings.HasPrefix(g, cur.Name()+" ") {
+							isFrozenName = true
+						}
+					}
+					if !isFrozenName && p.blankRepoNames(cur.Type()) == want[i] {
+						match = cur
+						n++
+					}
+				}
+				if n == 1 {
+					fieldCanon[match] = name
+					p.AliasNotes = append(p.AliasNotes, fmt.Sprintf("%s: frozen field %s.%s is now %s", pkg[strings.LastIndexByte(pkg, '/')+1:], s.Name, name, match.Name()))
+				}
+			}
+		}
+	}
 }
